@@ -229,6 +229,18 @@ def counted_add(x, y=0):
   return x + y
 
 
+def kw_names(**kw):
+  """Result depends on the order in which the keywords were given: [[name, value], ...]."""
+  _count('kw_names')
+  return [[k, v] for k, v in kw.items()]
+
+
+def counted_arr_sum(arr, k=0):
+  """A call with a (multi-element) numpy array argument."""
+  _count('counted_arr_sum')
+  return int(arr.sum()) + k
+
+
 def counted_list(n):
   _count('counted_list')
   return [n, n + 1]
